@@ -1,6 +1,7 @@
 import Mixin.Model.Membership
 import Mixin.Model.Custodian
 import Mixin.Proofs.Membership
+import Mixin.Proofs.Upsert
 import Mixin.Facts.ExpectedC10
 /-!
 # C11 — historical consensus views depend only on earlier ledger records
@@ -27,16 +28,31 @@ theorem list_refines_partial (recs : List Rec) (t : Nat) (acc : Bool) :
         (fun n => !acc || n.state == .accepted))) := by
   rw [scan_build, nodesList_eq_nodeSeq _ _ _ (sorted_ts (sortRecs_sorted _))]
   simp only [nodeSeq, filterLoop_eq _ _ [] (sorted_ts (sortRecs_sorted _))]
-/-
-Full statement `list_refines` (not proved here): the right-hand side above equals the declarative
-"latest record per id among records with ts < t":
-  ∀ r, r ∈ (Node.list (n.load recs) t acc).map (·.rc) ↔
-       r ∈ recs ∧ r.ts < t ∧ (acc → r.state = accepted) ∧
-       ∀ r' ∈ recs, r'.ts < t → r'.id = r.id → ¬ recLt r r'
-What is missing is the membership characterisation of `List.foldl upsert []` (last occurrence per
-id); everything else (the `break` is a filter, the scan picks the whole prefix, the sort is canonical)
-is proved in `Mixin.Proofs.Membership`.
--/
+
+/-- **list_refines**: on a loaded history with distinct `(ts, id)` keys, `NodesListWithoutState(t, acc)`
+    holds exactly the latest record of every id among the records with `ts < t` (only accepted ones
+    when `acc`), in `(ts, id)` order, numbered by `assignIdx` (index = number of accepted/pledging
+    entries before the position, `Mixin.Membership.idx_assignIdx`). -/
+theorem list_refines (n : Node) (recs : List Rec) (hd : DistinctKeys recs) (t : Nat) (acc : Bool) :
+    (∀ r, r ∈ ((n.load recs).list t acc).map (·.rc) ↔
+      r ∈ recs ∧ r.ts < t ∧ (acc = true → r.state = .accepted) ∧
+      ∀ r' ∈ recs, r'.ts < t → r'.id = r.id → ¬ recLt r r' = true) ∧
+    Sorted (((n.load recs).list t acc).map (·.rc)) ∧
+    (n.load recs).list t acc = assignIdx 0 (((n.load recs).list t acc).map (·.rc)) := by
+  refine ⟨fun r => list_refines_mem n recs hd t acc r, list_refines_sorted n recs t acc, ?_⟩
+  have h : ∃ X, (n.load recs).list t acc = assignIdx 0 X := by
+    unfold Node.load Node.list
+    simp only
+    rw [nodesList_eq_nodeSeq _ _ _ (sorted_ts (sortRecs_sorted _))]
+    exact ⟨_, rfl⟩
+  obtain ⟨X, hX⟩ := h
+  rw [hX, map_rc_assignIdx]
+
+/-- the scan over pre-built sequences computes the same list (so `list_refines` is about the Go
+    algorithm as written) -/
+theorem list_refines_scan (n : Node) (recs : List Rec) (t : Nat) (acc : Bool) :
+    scanSeqs (buildSeqs (n.load recs).all acc) t = (n.load recs).list t acc :=
+  Mixin.Membership.scan_build _ t acc
 
 /-- **list_prefix_stable**: adding records whose timestamps are `≥ t` (in any store order) does not
     change `NodesListWithoutState(t, ·)`. -/
